@@ -182,3 +182,26 @@ class Report:
 def die_machinery(msg):
     sys.stderr.write("MACHINERY-ERROR: %s\n" % msg)
     sys.exit(2)
+
+
+# ---------------------------------------------------------------------------
+# watchdog on CPU time: a call that does not return is detected by the CPU
+# seconds IT consumes (ITIMER_PROF), so a loaded machine cannot produce a
+# false "did not terminate"; a wall-clock backstop catches a sleeping hang
+# ---------------------------------------------------------------------------
+def watchdog_install(handler):
+    import signal
+    signal.signal(signal.SIGPROF, handler)
+    signal.signal(signal.SIGALRM, handler)
+
+
+def watchdog_start(cpu_seconds, wall_factor=40):
+    import signal
+    signal.setitimer(signal.ITIMER_PROF, cpu_seconds)
+    signal.alarm(int(cpu_seconds * wall_factor))
+
+
+def watchdog_stop():
+    import signal
+    signal.setitimer(signal.ITIMER_PROF, 0)
+    signal.alarm(0)
